@@ -542,6 +542,10 @@ class Ctx:
         cov['broken_ties'] = [{'kind': b['kind'], 'name': b['name']} for b in self.broken]
         cov['known_findings_observed'] = [f['key'] for f in self.failures if f['key'] in known]
         cov.update(self.extra)
+        if 'exhaustive' in cov and not isinstance(cov['exhaustive'], bool):   # schema: boolean
+            cov['exhaustive_note'] = cov.pop('exhaustive')
+        for k in ('evaluations', 'distinct_nontrivial', 'obligations', 'discharged', 'traces_validated_against_impl'):
+            cov[k] = int(cov.get(k, 0))
         ev = {'property_id': self.pid, 'tier': self.tier, 'seed': self.seed, 'level': 'proof',
               'coverage': cov, 'assumptions': self.assumptions, 'wall_s': round(wall, 2),
               'violations': nviol}
